@@ -1,4 +1,5 @@
 """C08 — acceptance is decided exactly by the documented width rules."""
+from props import C19
 from props.common_prog import judge_prog
 
 THEOREM_MODULES = ["Hcl.Theorems.C08", "Hcl.Tie.Ops", "Hcl.Tie.Grammar", "Hcl.Tie.PinsCheck", "Hcl.Theorems.C09Exact", "Hcl.Theorems.C08Spec"]
@@ -27,4 +28,6 @@ def streams(tier, seed):
     q = tier == "quick"
     return [{"name": "expr-mutated", "stream": "expr-mutated", "count": 6000 if q else 300000, "judge": judge},
             {"name": "expr", "stream": "expr", "count": 1500 if q else 50000, "judge": judge},
-            {"name": "prog-banks", "stream": "prog", "count": 150 if q else 5000, "extra": ("banks",), "judge": judge}]
+            {"name": "prog-banks", "stream": "prog", "count": 150 if q else 5000, "extra": ("banks",), "judge": judge},
+            # the same through FILES and the command line (accepted, rejected, big, not UTF-8, bare-CR, empty and malformed images, -q/-d/-t with and without TIMEOUT): the real binary, as in C19
+            {"name": "cli", "stream": "cli", "count": 300 if q else 8000, "pygen": C19.pygen, "judge": C19.judge}]
